@@ -4,8 +4,9 @@
 //     turnOnThreadSafeNewDeleteOverloads(); pre-emption is forced at lock acquire/release by wrapping the
 //     PlatformSpecificMutexLock/Unlock seams; events lock/unlock (seams) and table add/remove/retrieve (hook H3,
 //     i.e. at the linearization point, inside the lock) are written to slots reserved with an atomic counter.
-//  mode "misuse <kind> <log>": inside a real test run, a misuse (overrun / foreign free) is detected while the lock is
-//     held; afterwards the same and another thread allocate again.  Completion within the caller's deadline = no hang.
+//  mode "misuse <kind> <log>": inside a real test run, a misuse (overrun / foreign free / double free) is detected - or the allocator
+//     fails the test because it cannot satisfy the request - while the lock is held; afterwards the same and another thread
+//     allocate again.  Completion within the caller's deadline = no hang.
 #include "vh.h"
 #include <atomic>
 #include <thread>
@@ -108,11 +109,29 @@ static void worker(int tid, uint64_t seed, int nops)
     heldTotal[tid] = (long) mine.size();
 }
 
+static void dumpEvents(FILE* out, int nthreads, long delta)
+{
+    size_t n = evPos.load(); if (n > evCap) n = evCap;
+    // addresses -> small ids (TLC integers are 32-bit)
+    std::map<const void*, int> ids;
+    static const char* KN[] = {"", "lock", "unlock", "add", "remove", "retrieve"};
+    long held = 0; for (int t = 1; t <= nthreads; t++) held += heldTotal[t];
+    for (size_t i = 0; i < n; i++) {
+        int id = 0;
+        if (evs[i].addr) { std::map<const void*, int>::iterator it = ids.find(evs[i].addr); if (it == ids.end()) { id = (int) ids.size() + 1; ids[evs[i].addr] = id; } else id = it->second; }
+        fprintf(out, "{\"op\":\"%s\",\"t\":%d,\"a\":%d,\"found\":%s,\"o\":%d}\n", KN[evs[i].kind], evs[i].tid, id, evs[i].found ? "true" : "false", evs[i].owner);
+    }
+    fprintf(out, "{\"op\":\"end\",\"t\":0,\"a\":%ld,\"found\":%s,\"o\":%ld,\"entries\":[", delta, evPos.load() > evCap ? "false" : "true", held);
+    for (int i = 0; i < 11; i++) fprintf(out, "%s%ld", i ? "," : "", entryCount[i].load());
+    fprintf(out, "]}\n");
+}
+
 static int runThreads(uint64_t seed, int nthreads, int nops, const char* logPath)
 {
     FILE* out = fopen(logPath, "w");
     if (!out) return 2;
     vh_install(out, false);
+    myTid = 99;      // the main thread allocates too while it starts the workers (std::thread's state): it is a thread like the others
     evCap = (size_t) nthreads * (size_t) nops * 8 + 4096;
     evs = (Ev*) calloc(evCap, sizeof(Ev));
     std::vector<std::thread>* ths = new std::vector<std::thread>();
@@ -139,19 +158,71 @@ static int runThreads(uint64_t seed, int nthreads, int nops, const char* logPath
     long total = (long) det->totalMemoryLeaks(mem_leak_period_all);
     MemoryLeakWarningPlugin::turnOnDefaultNotThreadSafeNewDeleteOverloads();
     PlatformSpecificMutexLock = realLock; PlatformSpecificMutexUnlock = realUnlock;
-    size_t n = evPos.load(); if (n > evCap) n = evCap;
-    // addresses -> small ids (TLC integers are 32-bit)
-    std::map<const void*, int> ids;
-    static const char* KN[] = {"", "lock", "unlock", "add", "remove", "retrieve"};
-    long held = 0; for (int t = 1; t <= nthreads; t++) held += heldTotal[t];
-    for (size_t i = 0; i < n; i++) {
-        int id = 0;
-        if (evs[i].addr) { std::map<const void*, int>::iterator it = ids.find(evs[i].addr); if (it == ids.end()) { id = (int) ids.size() + 1; ids[evs[i].addr] = id; } else id = it->second; }
-        fprintf(out, "{\"op\":\"%s\",\"t\":%d,\"a\":%d,\"found\":%s,\"o\":%d}\n", KN[evs[i].kind], evs[i].tid, id, evs[i].found ? "true" : "false", evs[i].owner);
+    dumpEvents(out, nthreads, total - base);
+    fflush(out); fclose(out);
+    _exit(0);
+}
+
+// ---------------------------------------------------------------- one thread slow inside the locked region
+// mode "stall <ms> <log>": thread 1 allocates through an allocator that takes <ms> milliseconds (a slow or starved thread, a
+// slow user allocator, a huge block being poisoned): for that long it is inside the detector's locked region.  Threads 2 and 3
+// start allocating (new[] / malloc family) as soon as thread 1 is inside.  However long the lock is held, nobody else may
+// enter: the event log must still be a behaviour of the lock protocol.
+static std::atomic<bool> stallInside(false);
+static int stallMs = 0;
+class StallingAllocator : public TestMemoryAllocator
+{
+public:
+    StallingAllocator() : TestMemoryAllocator("stalling new", "new", "delete") {}
+    char* alloc_memory(size_t size, const char* file, size_t line) CPPUTEST_OVERRIDE
+    {
+        stallInside.store(true);
+        usleep((useconds_t) stallMs * 1000);
+        return TestMemoryAllocator::alloc_memory(size, file, line);
     }
-    fprintf(out, "{\"op\":\"end\",\"t\":0,\"a\":%ld,\"found\":%s,\"o\":%ld,\"entries\":[", total - base, evPos.load() > evCap ? "false" : "true", held);
-    for (int i = 0; i < 11; i++) fprintf(out, "%s%ld", i ? "," : "", entryCount[i].load());
-    fprintf(out, "]}\n");
+};
+static void stallOwner() { myTid = 1; void* p = ::operator new(16); memset(p, 1, 16); ::operator delete(p); heldTotal[1] = 0; }
+static void stallOther(int tid)
+{
+    myTid = tid; myRng = (uint64_t) tid * 7919 + 1;
+    while (!stallInside.load()) sched_yield();
+    for (int i = 0; i < 20; i++) {
+        if (tid == 2) { char* q = (char*) ::operator new[](8); memset(q, 2, 8); ::operator delete[](q); }
+        else { void* q = cpputest_malloc_location_with_leak_detection(8, "stall.c", 3); q = cpputest_realloc_location_with_leak_detection(q, 24, "stall.c", 4); cpputest_free_location_with_leak_detection(q, "stall.c", 5); }
+    }
+    heldTotal[tid] = 0;
+}
+static int runStall(int ms, const char* logPath)
+{
+    FILE* out = fopen(logPath, "w");
+    if (!out) return 2;
+    vh_install(out, false);
+    stallMs = ms;
+    myTid = 99;
+    evCap = 4096; evs = (Ev*) calloc(evCap, sizeof(Ev));
+    MemoryLeakDetector* det = MemoryLeakWarningPlugin::getGlobalDetector();
+    det->enable();
+    StallingAllocator* stalling = new StallingAllocator;
+    std::vector<std::thread>* ths = new std::vector<std::thread>();
+    ths->reserve(3);
+    realLock = PlatformSpecificMutexLock; realUnlock = PlatformSpecificMutexUnlock;
+    PlatformSpecificMutexLock = wrapLock; PlatformSpecificMutexUnlock = wrapUnlock;
+    MemoryLeakWarningPlugin::turnOnThreadSafeNewDeleteOverloads();
+    setCurrentNewAllocator(stalling);
+    long base = (long) det->totalMemoryLeaks(mem_leak_period_all);
+    CppUTestVerif_TableEvent = tableEvent;
+    recording.store(true);
+    ths->push_back(std::thread(stallOwner));
+    ths->push_back(std::thread(stallOther, 2));
+    ths->push_back(std::thread(stallOther, 3));
+    for (size_t i = 0; i < ths->size(); i++) (*ths)[i].join();
+    recording.store(false);
+    CppUTestVerif_TableEvent = NULL;
+    long total = (long) det->totalMemoryLeaks(mem_leak_period_all);
+    setCurrentNewAllocatorToDefault();
+    MemoryLeakWarningPlugin::turnOnDefaultNotThreadSafeNewDeleteOverloads();
+    PlatformSpecificMutexLock = realLock; PlatformSpecificMutexUnlock = realUnlock;
+    dumpEvents(out, 3, total - base);
     fflush(out); fclose(out);
     _exit(0);
 }
@@ -159,12 +230,29 @@ static int runThreads(uint64_t seed, int nthreads, int nops, const char* logPath
 // ---------------------------------------------------------------- misuse while the lock is held
 static int misuseKind = 0;
 static int bodyReached = 0, afterMisuse = 0, secondRan = 0, otherThreadOk = 0;
-static char* leakedForLater = NULL;
+static char* volatile leakedForLater = NULL;
 static MemoryLeakDetector* secondDetector = NULL;
+// an allocator that cannot satisfy the request and says so the way the library's own default allocator does when the C library returns
+// NULL (TestMemoryAllocator::alloc_memory -> checkedMalloc -> FAIL): a test failure raised while the wrapper holds the detector's lock
+class RefusingAllocator : public TestMemoryAllocator
+{
+public:
+    RefusingAllocator(const char* n, const char* a, const char* f) : TestMemoryAllocator(n, a, f) {}
+    char* alloc_memory(size_t, const char*, size_t) CPPUTEST_OVERRIDE { FAIL("scripted: the allocator cannot satisfy the request"); return NULLPTR; }
+};
+static RefusingAllocator* refusingNewArray = NULL;
+static RefusingAllocator* refusingMalloc = NULL;
 static void misuseBody()
 {
     bodyReached = 1;
     MemoryLeakWarningPlugin::turnOnThreadSafeNewDeleteOverloads();
+    if (misuseKind == 4 || misuseKind == 5) {
+        // (the result is stored where the compiler cannot prove it unused: an unused operator new call may be removed)
+        if (misuseKind == 4) { setCurrentNewArrayAllocator(refusingNewArray); leakedForLater = (char*) ::operator new[](8); }
+        else { setCurrentMallocAllocator(refusingMalloc); leakedForLater = (char*) cpputest_malloc_location_with_leak_detection(8, "m.c", 5); }
+        afterMisuse = 1;   // must not be reached
+        return;
+    }
     if (misuseKind == 3) {
         // the global detector is replaced while the thread-safe overloads are on (setGlobalDetector is public API): the lock taken
         // by the wrappers and the lock released on the failure path must both be the current detector's
@@ -183,6 +271,7 @@ static void misuseBody()
 static void secondBody()
 {
     secondRan = 1;
+    setCurrentNewArrayAllocatorToDefault(); setCurrentMallocAllocatorToDefault();
     char* q = (char*) ::operator new[](4);     // needs the detector lock again
     ::operator delete[](q);
 }
@@ -197,6 +286,8 @@ static int runMisuse(int kind, const char* logPath)
     MemoryLeakDetector* det = MemoryLeakWarningPlugin::getGlobalDetector();
     det->enable();
     if (kind == 3) { secondDetector = new MemoryLeakDetector(MemoryLeakWarningPlugin::getGlobalFailureReporter()); secondDetector->enable(); }
+    refusingNewArray = new RefusingAllocator("refusing new []", "new []", "delete []");
+    refusingMalloc = new RefusingAllocator("refusing malloc", "malloc", "free");
     TestRegistry registry;
     ExecFunctionTestShell t1, t2;
     t1.setGroupName("M"); t1.setTestName("misuse"); t1.setFileName("m.cpp"); t1.setLineNumber(1);
@@ -212,7 +303,8 @@ static int runMisuse(int kind, const char* logPath)
     MemoryLeakWarningPlugin::turnOnDefaultNotThreadSafeNewDeleteOverloads();
     if (kind == 3) MemoryLeakWarningPlugin::setGlobalDetector(det, MemoryLeakWarningPlugin::getGlobalFailureReporter());
     std::string text = output.getOutput().asCharString();
-    std::string cat = text.find("Memory corruption") != std::string::npos ? "corruption" : text.find("Deallocating non-allocated memory") != std::string::npos ? "nonallocated" : "none";
+    std::string cat = text.find("Memory corruption") != std::string::npos ? "corruption" : text.find("Deallocating non-allocated memory") != std::string::npos ? "nonallocated"
+                      : text.find("scripted: the allocator cannot satisfy the request") != std::string::npos ? "refused" : "none";
     fprintf(out, "{\"op\":\"misuse\",\"kind\":%d,\"body\":%d,\"after\":%d,\"second\":%d,\"other\":%d,\"failures\":%lu,\"run\":%lu,\"cat\":\"%s\"}\n",
             kind, bodyReached, afterMisuse, secondRan, otherThreadOk, (unsigned long) result.getFailureCount(), (unsigned long) result.getRunCount(), cat.c_str());
     fflush(out); fclose(out);
@@ -223,5 +315,6 @@ int main(int argc, char** argv)
 {
     if (argc >= 6 && std::string(argv[1]) == "run") { if (argc > 6) yieldLevel = atoi(argv[6]); return runThreads((uint64_t) atoll(argv[2]), atoi(argv[3]), atoi(argv[4]), argv[5]); }
     if (argc >= 4 && std::string(argv[1]) == "misuse") return runMisuse(atoi(argv[2]), argv[3]);
+    if (argc >= 4 && std::string(argv[1]) == "stall") return runStall(atoi(argv[2]), argv[3]);
     return 2;
 }
